@@ -27,6 +27,7 @@ def hang_signature(kind, report, default, sc=None):
     Server.__exit__/__aexit__ (servlet.stop() -> join) while a worker or relay thread is blocked WRITING to a full pipe-backed
     queue whose reader has already stopped reading. Every other hang keeps its generic signature."""
     root_in_exit = False
+    rebroadcast = False
     writers = set()
     for idx, name, state, why, stack in report:
         fns = [f[2] for f in stack]
@@ -36,13 +37,19 @@ def hang_signature(kind, report, default, sc=None):
             for fn, ln, fname in stack:
                 if '/mpservice/mpserver/' in fn:
                     writers.add(fname)
+                    import linecache
+                    if 'q_in.put' in linecache.getline(fn, ln):
+                        # a worker that has just read the end marker puts it back on its OWN input queue (for fellow workers) and
+                        # blocks: abandoned inputs written after the marker fill the pipe, and nobody reads that queue any more
+                        rebroadcast = True
                     break
     if root_in_exit and writers and any(why == 'write' for _i, _n, _s, why, _st in report):
         # The recorded finding needs one of: a reader that stops at the FIRST end marker while other writers are still busy
         # (a leaf with >=2 workers, an ensemble/switch relay), a batching worker (its collector emits the marker ahead of its own
-        # pending results), or the onboarding thread still holding abandoned inputs. A plain chain of single, non-batching workers
+        # pending results), the onboarding thread still holding abandoned inputs, or abandoned inputs queued BEHIND the end marker
+        # (the reader stops at the marker and then blocks re-broadcasting it into the full queue). A plain chain of single, non-batching workers
         # whose onboarding thread is idle cannot hang this way on the recorded code, so such a hang gets a different signature.
-        vulnerable = '_onboard_input' in writers
+        vulnerable = '_onboard_input' in writers or rebroadcast
         if sc is not None:
             for lf in servers.leaves(sc['tree']):
                 if lf.get('n', 1) > 1 or (lf.get('b') or 0) > 1 or lf.get('stream_threads'):
@@ -106,6 +113,8 @@ def gen(rng, tier):
             rng.choice(lvs)['fail'] = {'xs': sorted(rng.sample(allx, min(len(allx), 2))), 'exc': 'ExcA'}
     sc = {'tree': tree, 'capacity': rng.choice([1, 4, 16, 64, 300]), 'async': rng.random() < 0.3, 'cycles': cycles,
           'fail_site': list(fail_site) if fail_site else None, 'fail_cycle': rng.randrange(len(cycles)) if fail_site else None,
+          # all-or-nothing: a failed start leaves nothing behind, so the same object can simply be entered again
+          'same_object_after_failed_enter': bool(fail_site) and rng.random() < 0.6,
           'post': [next(nxt)] if rng.random() < 0.5 else []}  # without a final blocking call, abandoned work is still in flight at __exit__
     cfg = swarm(rng, racy=0.15, line=0.2, max_time=600.0, max_steps=1_500_000, pipe_cap=rng.choice([512, 4096, 4096, 65536]))
     return {'scenario': sc, 'sim': cfg}
@@ -243,12 +252,11 @@ def run(sim, sc):
                 sim.violation('enter:raised-a-different-error', {'exc': repr(out.enter_exc)[:300]})
             if not check_clean('after-failed-enter'):
                 return obs
-            # a failed enter may leave the servlet objects in a started state: whether the same object can be entered again
-            # after a failed start is not part of the statement, so later cycles use a fresh server
-            servlet = servers.build_servlet(tree)
-            set_fail(False)
-            rebuild_kwargs(servlet, tree)
-            server = (AsyncServer if is_async else Server)(servlet, capacity=sc['capacity'])
+            if not sc.get('same_object_after_failed_enter'):
+                servlet = servers.build_servlet(tree)
+                set_fail(False)
+                rebuild_kwargs(servlet, tree)
+                server = (AsyncServer if is_async else Server)(servlet, capacity=sc['capacity'])
             continue
         if out.enter_exc is not None:
             sim.violation('enter:failed-without-fault', {'exc': repr(out.enter_exc)[:300], 'cycle': ci})
